@@ -344,7 +344,7 @@ def run_case(item):
                 on_exec((), root)
             for i, kid in enumerate(tx.children(root.choices, 0, pb, 2)):
                 if i % nsh == shard:
-                    tx.explore(run_one, pb, root=kid, on_exec=on_exec, fbound=2)
+                    tx.explore(run_one, pb, root=kid, on_exec=on_exec, fbound=2, stop=lambda: st.extra.get('violations_total', 0) >= 12)
         except tx.Divergence as e:
             raise common.MachineryError(f'{w}: {e}')
         finally:
